@@ -1,12 +1,346 @@
-From TU Require Import Base C01_Model C17_Model.
-From Coq Require Import Lia QArith.
+From TU Require Import Base C01_Model C01_Proofs C17_Model.
+From Coq Require Import Lia QArith Qabs.
 Open Scope nat_scope.
 
+(** * group lengths and weights *)
 Lemma weights_length mean g : length (weights mean g) = tg_len g.
 Proof.
   revert g. fix IH 1. intros [n|n|l]; cbn [weights tg_len].
   - apply repeat_length.
   - apply repeat_length.
-  - rewrite map_length. induction l as [|x l IHl]; cbn [flat_map map list_sum]; [reflexivity|].
+  - rewrite map_length. induction l as [|x l IHl]; cbn [flat_map map]; rewrite ?list_sum_cons, ?list_sum_nil; [reflexivity|].
     rewrite app_length, IH, IHl. reflexivity.
+Qed.
+
+Lemma list_sum_cons x l : list_sum (x :: l) = x + list_sum l.
+Proof. reflexivity. Qed.
+Lemma list_sum_nil : list_sum [] = 0.
+Proof. reflexivity. Qed.
+
+Lemma sum_repeat_full n : list_sum (map tg_len (repeat (Full 1) n)) = n.
+Proof. induction n as [|n IH]; cbn [repeat map]; [reflexivity|]. rewrite list_sum_cons, IH. reflexivity. Qed.
+
+Lemma cluster_group_len cpg c : tg_len (cluster_group cpg c) = length (utf8s c).
+Proof.
+  unfold cluster_group. destruct cpg; [|reflexivity]. cbn [tg_len]. unfold utf8s.
+  induction c as [|x c IH]; cbn [map flat_map]; rewrite ?list_sum_cons, ?list_sum_nil; [reflexivity|]. rewrite app_length, IH. reflexivity.
+Qed.
+
+Lemma clusters_len cpg cls : list_sum (map tg_len (map (cluster_group cpg) cls)) = length (utf8s (concat cls)).
+Proof.
+  induction cls as [|c cls IH]; cbn [map concat]; rewrite ?list_sum_cons, ?list_sum_nil; [reflexivity|].
+  rewrite cluster_group_len, IH, utf8s_app, app_length. reflexivity.
+Qed.
+
+(** the groups of the segments cover exactly the ids of the segments *)
+Lemma segs_groups_len b cpg g segs : forall os ls,
+  clusters_ok g segs os -> Forall2 (seg_ids_rel b) segs ls ->
+  list_sum (map tg_len (segs_groups cpg g segs os)) = length (concat ls).
+Proof.
+  induction segs as [|sg segs IH]; intros os ls Hok H; inversion H as [|? l ? ls' Hg Hr]; subst; [reflexivity|].
+  destruct sg as [r|t]; cbn [segs_groups clusters_ok concat] in *.
+  - destruct Hok as [Hc Hok]. cbn in Hg. subst l. rewrite map_app, list_sum_app, clusters_len, Hc, app_length.
+    rewrite (IH _ _ Hok Hr). reflexivity.
+  - destruct Hg as (i & _ & ->). cbn [map tg_len app length]; rewrite ?list_sum_cons, ?list_sum_nil. rewrite (IH _ _ Hok Hr). reflexivity.
+Qed.
+
+Lemma segs_groups_count cpg g segs : forall os, length (segs_groups cpg g segs os) = n_chars g segs os.
+Proof.
+  induction segs as [|[r|t] rest IH]; intros os; cbn [segs_groups n_chars]; [reflexivity| |].
+  - rewrite app_length, map_length, IH. reflexivity.
+  - cbn [length]. rewrite IH. reflexivity.
+Qed.
+
+Lemma n_units_chars g segs : forall os, n_units g segs os = n_chars g segs os.
+Proof. induction segs as [|[r|t] rest IH]; intros os; cbn [n_units n_chars]; rewrite ?IH; reflexivity. Qed.
+
+Lemma groups_partition_l tokens padto pad prefix suffix b cpg g s ign os :
+  byte_base tokens padto pad prefix suffix = Some b ->
+  clusters_ok g (split_input (b_sv b) s ign) os ->
+  exists ids, byte_tokenize b s ign = Some ids
+    /\ list_sum (map tg_len (byte_groups b cpg g s ign os)) = length ids
+    /\ length (byte_groups b cpg g s ign os)
+       = length prefix + n_chars g (split_input (b_sv b) s ign) os + length suffix.
+Proof.
+  intros Hb Hok.
+  destruct (byte_tokenize_shape_l _ _ _ _ _ _ s ign Hb) as (Hp & Hq & Hoff & body & Htok & Hi & Hpa).
+  exists (b_pre b ++ body ++ b_suf b). split; [exact Htok|]. unfold byte_groups. split.
+  - rewrite !map_app, !list_sum_app, !sum_repeat_full, !app_length. f_equal. f_equal.
+    destruct ign.
+    + rewrite (Hi eq_refl). unfold split_input in *. cbn [segs_groups clusters_ok] in *. destruct Hok as [Hc _].
+      rewrite app_nil_r, clusters_len, Hc. reflexivity.
+    + destruct (Hpa eq_refl) as (ls & Hls & ->). unfold split_input in *. eapply segs_groups_len; eauto.
+  - rewrite !app_length, !repeat_length, segs_groups_count, (ids_of_length _ _ _ Hp), (ids_of_length _ _ _ Hq). lia.
+Qed.
+
+(** * the sparse matrix builder *)
+Definition item_vals (mean : bool) (groups : list tg) : list Q :=
+  flat_map (fun g => if mean then weights true g else repeat 1%Q (tg_len g)) groups.
+Definition spec_vals (items : list item) : list Q := flat_map (fun it : item => item_vals (snd it) (fst it)) items.
+
+Lemma inner_spec mean groups : forall gidx goff,
+  inner mean groups gidx goff
+  = (spec_groups gidx groups, seq goff (list_sum (map tg_len groups)), item_vals mean groups).
+Proof.
+  induction groups as [|g r IH]; intros gidx goff; cbn [inner spec_groups map item_vals flat_map]; rewrite ?list_sum_cons, ?list_sum_nil; [reflexivity|].
+  rewrite IH. rewrite seq_app. reflexivity.
+Qed.
+
+Definition Equations (items : list item) (lengths : list nat) : Prop :=
+  Forall2 (fun (it : item) len => list_sum (map tg_len (fst it)) = len) items lengths.
+
+Lemma sparse_loop_spec items : forall lengths bidx offset,
+  Equations items lengths ->
+  sparse_loop items lengths bidx offset offset
+  = Some (spec_r0 bidx lengths, spec_r1 items, spec_r2 lengths, spec_vals items).
+Proof.
+  induction items as [|[groups mean] ri IH]; intros lengths bidx offset H; inversion H as [|? len ? rl Hl Hr]; subst.
+  - reflexivity.
+  - cbn [sparse_loop fst] in *. rewrite inner_spec, Nat.eqb_refl, (IH _ _ _ Hr). reflexivity.
+Qed.
+
+Lemma sparse_loop_none items : forall lengths bidx offset,
+  length items = length lengths -> ~ Equations items lengths ->
+  sparse_loop items lengths bidx offset offset = None.
+Proof.
+  induction items as [|[groups mean] ri IH]; intros lengths bidx offset Hlen Hne.
+  - destruct lengths; [|discriminate]. exfalso. apply Hne. constructor.
+  - destruct lengths as [|len rl]; [discriminate|]. cbn [sparse_loop]. rewrite inner_spec.
+    destruct (Nat.eqb_spec (offset + list_sum (map tg_len groups)) (offset + len)) as [E|E]; [|reflexivity].
+    assert (Hl : list_sum (map tg_len groups) = len) by lia. rewrite Hl.
+    rewrite IH; [reflexivity|cbn in Hlen; lia|]. intros Hr. apply Hne. constructor; [exact Hl|exact Hr].
+Qed.
+
+Lemma Equations_length items lengths : Equations items lengths -> length items = length lengths.
+Proof. induction 1; cbn; congruence. Qed.
+
+Definition spec_out (items : list item) (lengths : list nat) : sparse_out :=
+  let gl := map (fun it : item => length (fst it)) items in
+  {| s_r0 := spec_r0 0 lengths; s_r1 := spec_r1 items; s_r2 := spec_r2 lengths; s_vals := spec_vals items;
+     s_size := [length items; list_max0 gl; list_max0 lengths]; s_gl := gl |}.
+
+Lemma sparse_spec items lengths : Equations items lengths -> sparse items lengths = Some (spec_out items lengths).
+Proof.
+  intros H. unfold sparse. pose proof (Equations_length _ _ H) as E. apply Nat.eqb_eq in E.
+  rewrite E, (sparse_loop_spec _ _ 0 0 H). reflexivity.
+Qed.
+
+Lemma sparse_none items lengths : ~ Equations items lengths -> sparse items lengths = None.
+Proof.
+  intros H. unfold sparse. destruct (Nat.eqb_spec (length items) (length lengths)) as [E|E]; [|reflexivity].
+  rewrite (sparse_loop_none _ _ 0 0 E H). reflexivity.
+Qed.
+
+(** lengths and index bounds of the specification rows *)
+Lemma spec_r0_length i lengths : length (spec_r0 i lengths) = list_sum lengths.
+Proof. revert i; induction lengths as [|l r IH]; intros i; cbn; [reflexivity|]. rewrite app_length, repeat_length, IH. reflexivity. Qed.
+
+Lemma spec_r2_length lengths : length (spec_r2 lengths) = list_sum lengths.
+Proof. unfold spec_r2. induction lengths as [|l r IH]; cbn; [reflexivity|]. rewrite app_length, seq_length, IH. reflexivity. Qed.
+
+Lemma spec_groups_length j groups : length (spec_groups j groups) = list_sum (map tg_len groups).
+Proof. revert j; induction groups as [|g r IH]; intros j; cbn; [reflexivity|]. rewrite app_length, repeat_length, IH. reflexivity. Qed.
+
+Lemma item_vals_length mean groups : length (item_vals mean groups) = list_sum (map tg_len groups).
+Proof.
+  unfold item_vals. induction groups as [|g r IH]; cbn [flat_map map]; rewrite ?list_sum_cons, ?list_sum_nil; [reflexivity|].
+  rewrite app_length, IH. destruct mean; [rewrite weights_length|rewrite repeat_length]; reflexivity.
+Qed.
+
+Lemma spec_r1_length items lengths : Equations items lengths -> length (spec_r1 items) = list_sum lengths.
+Proof.
+  unfold spec_r1. induction 1 as [|it len items lengths Hl Hr IH]; cbn [flat_map]; rewrite ?list_sum_cons, ?list_sum_nil; [reflexivity|].
+  rewrite app_length, spec_groups_length, Hl, IH. reflexivity.
+Qed.
+
+Lemma spec_vals_length items lengths : Equations items lengths -> length (spec_vals items) = list_sum lengths.
+Proof.
+  unfold spec_vals. induction 1 as [|it len items lengths Hl Hr IH]; cbn [flat_map]; rewrite ?list_sum_cons, ?list_sum_nil; [reflexivity|].
+  rewrite app_length, item_vals_length, Hl, IH. reflexivity.
+Qed.
+
+Lemma spec_r0_bound lengths : forall i, Forall (fun x => x < i + length lengths) (spec_r0 i lengths).
+Proof.
+  induction lengths as [|l r IH]; intros i; cbn [spec_r0 length]; [constructor|]. apply Forall_app. split.
+  - apply Forall_forall. intros x Hx. apply repeat_spec in Hx. lia.
+  - eapply Forall_impl; [|apply (IH (S i))]. cbn. intros; lia.
+Qed.
+
+Lemma spec_groups_bound groups : forall j, Forall (fun x => x < j + length groups) (spec_groups j groups).
+Proof.
+  induction groups as [|g r IH]; intros j; cbn [spec_groups length]; [constructor|]. apply Forall_app. split.
+  - apply Forall_forall. intros x Hx. apply repeat_spec in Hx. lia.
+  - eapply Forall_impl; [|apply (IH (S j))]. cbn. intros; lia.
+Qed.
+
+Lemma list_max0_ge l x : In x l -> x <= list_max0 l.
+Proof.
+  induction l as [|y l IH]; [intros []|]. unfold list_max0. cbn [fold_right In]. fold (list_max0 l).
+  intros [->|H]; [lia|]. specialize (IH H). lia.
+Qed.
+
+Lemma spec_r1_bound items : Forall (fun x => x < list_max0 (map (fun it : item => length (fst it)) items)) (spec_r1 items).
+Proof.
+  unfold spec_r1. apply Forall_forall. intros x Hx. apply in_flat_map in Hx as (it & Hit & Hx).
+  pose proof (spec_groups_bound (fst it) 0) as Hb. rewrite Forall_forall in Hb. specialize (Hb x Hx). cbn in Hb.
+  assert (length (fst it) <= list_max0 (map (fun it : item => length (fst it)) items)).
+  { apply list_max0_ge. apply in_map_iff. exists it. auto. }
+  lia.
+Qed.
+
+Lemma spec_r2_bound lengths : Forall (fun x => x < list_max0 lengths) (spec_r2 lengths).
+Proof.
+  unfold spec_r2. apply Forall_forall. intros x Hx. apply in_flat_map in Hx as (l & Hl & Hx).
+  apply in_seq in Hx. pose proof (list_max0_ge _ _ Hl). lia.
+Qed.
+
+Lemma sparse_ok_l items lengths : Equations items lengths ->
+  exists s, sparse items lengths = Some s
+    /\ s_r0 s = spec_r0 0 lengths /\ s_r1 s = spec_r1 items /\ s_r2 s = spec_r2 lengths
+    /\ length (s_r0 s) = list_sum lengths /\ length (s_r1 s) = list_sum lengths
+    /\ length (s_r2 s) = list_sum lengths /\ length (s_vals s) = list_sum lengths
+    /\ s_size s = [length items; list_max0 (s_gl s); list_max0 lengths]
+    /\ s_gl s = map (fun it : item => length (fst it)) items
+    /\ Forall (fun x => x < nth 0 (s_size s) 0) (s_r0 s)
+    /\ Forall (fun x => x < nth 1 (s_size s) 0) (s_r1 s)
+    /\ Forall (fun x => x < nth 2 (s_size s) 0) (s_r2 s).
+Proof.
+  intros H. exists (spec_out items lengths). split; [apply sparse_spec; exact H|]. unfold spec_out. cbn [s_r0 s_r1 s_r2 s_vals s_size s_gl nth].
+  repeat split.
+  - apply spec_r0_length.
+  - apply spec_r1_length. exact H.
+  - apply spec_r2_length.
+  - apply spec_vals_length. exact H.
+  - rewrite (Equations_length _ _ H). apply (spec_r0_bound lengths 0).
+  - apply spec_r1_bound.
+  - apply spec_r2_bound.
+Qed.
+
+(** * weights over Q *)
+Local Open Scope Q_scope.
+Lemma sumQ_app a b : sumQ (a ++ b) == sumQ a + sumQ b.
+Proof.
+  unfold sumQ. induction a as [|x a IH]; cbn [app fold_right]; [symmetry; apply Qplus_0_l|].
+  rewrite IH. apply Qplus_assoc.
+Qed.
+
+Lemma qnat_S n : qnat (S n) == qnat n + 1.
+Proof. unfold qnat. rewrite Nat2Z.inj_succ. unfold Z.succ. rewrite inject_Z_plus. reflexivity. Qed.
+
+Lemma sumQ_repeat q n : sumQ (repeat q n) == qnat n * q.
+Proof.
+  unfold sumQ. induction n as [|n IH]; cbn [repeat fold_right].
+  - unfold qnat. cbn. ring.
+  - rewrite IH, qnat_S. ring.
+Qed.
+
+Lemma sumQ_map_mul w l : sumQ (map (fun x => x * w) l) == sumQ l * w.
+Proof.
+  unfold sumQ. induction l as [|x l IH]; cbn [map fold_right]; [ring|]. rewrite IH. ring.
+Qed.
+
+Lemma qnat_nz n : (0 < n)%nat -> ~ qnat n == 0.
+Proof. intros H. unfold qnat, inject_Z, Qeq. cbn. lia. Qed.
+
+Lemma qnat_inv n : (0 < n)%nat -> qnat n * (1 / qnat n) == 1.
+Proof. intros H. field. apply qnat_nz. exact H. Qed.
+
+(** mean aggregation: the weights of a group whose (nested) parts are all non-empty sum to one *)
+Lemma weights_sum_l : forall g, positiveb g = true -> sumQ (weights true g) == 1.
+Proof.
+  fix IH 1. intros [n|n|l]; cbn [positiveb weights]; [discriminate| |].
+  - intros H. apply Nat.ltb_lt in H. rewrite sumQ_repeat. apply qnat_inv. exact H.
+  - intros H. apply andb_true_iff in H as [Hn Hl]. apply negb_true_iff in Hn. apply Nat.eqb_neq in Hn.
+    rewrite sumQ_map_mul.
+    assert (Hs : sumQ (flat_map (weights true) l) == qnat (length l)).
+    { clear Hn. induction l as [|x l IHl]; cbn [flat_map length]; [unfold qnat; cbn; reflexivity|].
+      cbn [forallb] in Hl. apply andb_true_iff in Hl as [Hx Hl].
+      rewrite sumQ_app, (IH x Hx), (IHl Hl), qnat_S. ring. }
+    rewrite Hs. apply qnat_inv. lia.
+Qed.
+
+Local Close Scope Q_scope.
+
+(** sum aggregation: the builder leaves every value at one *)
+Lemma item_vals_sum groups : item_vals false groups = repeat 1%Q (list_sum (map tg_len groups)).
+Proof.
+  unfold item_vals. induction groups as [|g r IH]; cbn [flat_map map]; rewrite ?list_sum_cons, ?list_sum_nil; [reflexivity|].
+  rewrite IH, repeat_app. reflexivity.
+Qed.
+
+(** * the byte tokenizer's groups are positive *)
+Fixpoint clusters_ne (g : bool) (segs : list seg) (os : list (list cluster)) : Prop :=
+  match segs with
+  | [] => True
+  | Reg r :: rest => Forall (fun c : cluster => c <> []) (clusters_of g r (hd [] os)) /\ clusters_ne g rest (tl os)
+  | Spec _ :: rest => clusters_ne g rest os
+  end.
+
+Lemma clusters_ne_cp segs : forall os, clusters_ne false segs os.
+Proof.
+  induction segs as [|[r|t] rest IH]; intros os; cbn [clusters_ne]; auto. split; [|apply IH].
+  cbn [clusters_of]. unfold singletons. apply Forall_forall. intros c Hc. apply in_map_iff in Hc as (x & <- & _). discriminate.
+Qed.
+
+Lemma clusters_ne_oracle segs : forall os, oracle_okb segs os = true -> clusters_ne true segs os.
+Proof.
+  induction segs as [|[r|t] rest IH]; intros os; cbn [clusters_ne oracle_okb]; auto.
+  destruct os as [|o os]; [discriminate|]. intros H.
+  apply andb_true_iff in H as [H H3]. apply andb_true_iff in H as [_ H2].
+  cbn [hd tl clusters_of]. split; [|apply IH; exact H3].
+  rewrite forallb_forall in H2. apply Forall_forall. intros c Hc. specialize (H2 c Hc). destruct c; [discriminate|discriminate].
+Qed.
+
+Lemma utf8_nonempty c : 0 < length (utf8 c).
+Proof. unfold utf8. destruct (c <? 128)%N; [cbn; lia|]. destruct (c <? 2048)%N; [cbn; lia|]. destruct (c <? 65536)%N; cbn; lia. Qed.
+
+Lemma cluster_group_positive cpg c : c <> [] -> positiveb (cluster_group cpg c) = true.
+Proof.
+  intros Hc. unfold cluster_group. destruct cpg; cbn [positiveb].
+  - rewrite map_length. destruct c as [|x c]; [congruence|]. cbn [length Nat.eqb negb andb].
+    rewrite forallb_forall. intros g Hg. apply in_map_iff in Hg as (y & <- & _). cbn [positiveb].
+    apply Nat.ltb_lt. apply utf8_nonempty.
+  - destruct c as [|x c]; [congruence|]. cbn [utf8s flat_map]. rewrite app_length. apply Nat.ltb_lt.
+    pose proof (utf8_nonempty x). lia.
+Qed.
+
+Lemma repeat_full_positive n : forallb positiveb (repeat (Full 1) n) = true.
+Proof. induction n as [|n IH]; cbn [repeat forallb positiveb]; [reflexivity|]. rewrite IH. reflexivity. Qed.
+
+Lemma segs_groups_positive cpg g segs : forall os, clusters_ne g segs os ->
+  forallb positiveb (segs_groups cpg g segs os) = true.
+Proof.
+  induction segs as [|[r|t] rest IH]; intros os H; cbn [segs_groups clusters_ne forallb] in *; [reflexivity| |].
+  - destruct H as [H1 H2]. rewrite forallb_app, (IH _ H2), andb_true_r.
+    rewrite forallb_forall. intros x Hx. apply in_map_iff in Hx as (c & <- & Hc).
+    apply cluster_group_positive. rewrite Forall_forall in H1. auto.
+  - cbn [positiveb]. apply IH. exact H.
+Qed.
+
+Lemma byte_groups_positive_l b cpg g s ign os : clusters_ne g (split_input (b_sv b) s ign) os ->
+  forallb positiveb (byte_groups b cpg g s ign os) = true.
+Proof.
+  intros H. unfold byte_groups. rewrite !forallb_app, !repeat_full_positive, (segs_groups_positive _ _ _ _ H). reflexivity.
+Qed.
+
+(** * padding *)
+Lemma Forall2_map_r {A B} (P : A -> B -> Prop) (f : A -> B) l : (forall x, In x l -> P x (f x)) -> Forall2 P l (map f l).
+Proof. induction l as [|x l IH]; intros H; cbn [map]; constructor; [apply H; left; reflexivity|apply IH; intros; apply H; right; assumption]. Qed.
+
+Lemma pad_rows_spec {A} (rows : list (list A)) (pad : A) :
+  let m := list_max0 (map (@length A) rows) in
+  snd (pad_rows rows pad) = map (@length A) rows /\
+  Forall2 (fun r r' => r' = r ++ repeat pad (m - length r) /\ length r' = m /\ length r <= m) rows (fst (pad_rows rows pad)).
+Proof.
+  cbv zeta. unfold pad_rows. cbn [fst snd]. split; [reflexivity|]. apply Forall2_map_r. intros r Hr.
+  assert (length r <= list_max0 (map (@length A) rows)) by (apply list_max0_ge; apply in_map; exact Hr).
+  split; [reflexivity|]. split; [rewrite app_length, repeat_length; lia|assumption].
+Qed.
+
+Lemma padding_mask_spec lengths :
+  let m := list_max0 lengths in
+  Forall2 (fun l row => row = repeat true l ++ repeat false (m - l) /\ length row = m /\ l <= m) lengths (padding_mask lengths).
+Proof.
+  cbv zeta. unfold padding_mask. apply Forall2_map_r. intros l Hl. pose proof (list_max0_ge _ _ Hl).
+  split; [reflexivity|]. split; [rewrite app_length, !repeat_length; lia|assumption].
 Qed.
